@@ -14,15 +14,34 @@ TIERS = {
 }
 
 
-def tasks_for(tier):
+def tasks_for(tier, scratch=None):
     t = TIERS[tier]
     tasks = []
-    for path in det.corpus(tier):
+    paths = list(det.corpus(tier))
+    twin = {}
+    if scratch is not None:
+        # a twin of 1ehz whose modified residues have lost their bases, in the same interpreter as the original
+        src = os.path.join(lib.REPO, "tests", "1ehz-assembly-1.cif")
+        if src in paths:
+            dst = scratch.path("1ehz-nobase.cif")
+            det.strip_modified_bases(src, dst)
+            paths.append(dst)
+            twin = {src: "twin-1ehz", dst: "twin-1ehz"}
+        # ... and two copies of a PDB file with a few residues under an unresolvable component name, complete in
+        # one copy, without base atoms in the other
+        src = os.path.join(lib.REPO, "tests", "4qln.pdb")
+        if src in paths:
+            a, b = scratch.path("4qln-xyp.pdb"), scratch.path("4qln-xyp-nobase.pdb")
+            det.make_pdb_twins(src, a, b)
+            paths += [b, a]
+            twin.update({a: "twin-4qln", b: "twin-4qln"})
+    for path in paths:
         name = os.path.basename(path)
         # estimated seconds per repetition (only used to balance the shards)
         size = os.path.getsize(path) * (5 if name.endswith(".gz") else 1)
         tasks.append({"kind": "file", "name": name, "path": path, "max_comp": t["max_comp"],
-                      "weight": 0.3 + size / 2e5 + (25 if name.startswith("1gid") else 0)})
+                      "weight": 0.3 + size / 2e5 + (25 if name.startswith("1gid") else 0),
+                      **({"group": twin[path]} if path in twin else {})})
         tasks.append({"kind": "v2", "name": name, "path": path, "weight": 0.2 + size / 1.5e5})
     gen = det.generated_cases(t["gen"], lib.seed())
     for g in gen:
@@ -51,7 +70,7 @@ def run(tier):
     rep = lib.Report(PID, tier, "exploration")
     with lib.Scratch("c14") as sc:
         # the fresh interpreters (real code) and the three design-model checks run side by side
-        tasks, gen = tasks_for(tier)
+        tasks, gen = tasks_for(tier, sc)
         seeds = det.seeds_for(tier)
         with ThreadPoolExecutor(max_workers=5) as ex:
             fut = ex.submit(det.run_children, tasks, seeds, t["shards"], sc)
@@ -142,7 +161,11 @@ def replay(doc):
             mine = [{"kind": "map", "name": "maps-replay", "lists": lists,
                      "path": os.path.join(lib.REPO, "tests", "1ehz-assembly-1.cif")}] if lists else []
         else:
-            mine = [t for t in tasks_for("thorough")[0] if t["kind"] in ("file", "v2") and t["name"] == inp]
+            allt = tasks_for("thorough", sc)[0]
+            mine = [t for t in allt if t["kind"] in ("file", "v2") and t["name"] == inp]
+            # an input that has a twin is replayed together with it (the pair meets in one interpreter)
+            groups = {t["group"] for t in mine if "group" in t}
+            mine += [t for t in allt if t.get("group") in groups and t not in mine]
         if not mine:
             raise lib.MachineryError(f"cannot find input {inp} for replay")
         seeds = sorted({o["seed"] for o in case["obs"]}, key=lambda s: (s == "random", s.zfill(4)))
